@@ -60,4 +60,37 @@ theorem isLstsqSrc_eq (ids : List Nat) (m : Nat) (X β : Mat) (hkind : CorrRemov
   unfold useSrc nonSens
   rw [hk]
 
+/-! ### `_create_lookup`: names / positions to positions -/
+
+open CorrRemoverSrc in
+theorem dictGet_of_mem (entries : List (Nat × Nat)) (hk : (entries.map Prod.fst).Nodup) (k v : Nat)
+    (hm : (k, v) ∈ entries) : dictGet entries k = v := by
+  unfold dictGet
+  cases hf : entries.reverse.find? (fun e => e.1 == k) with
+  | none =>
+    have := List.find?_eq_none.mp hf (k, v) (by simpa using hm)
+    simp at this
+  | some e =>
+    have he := List.mem_of_find?_eq_some hf
+    have hp := List.find?_some hf
+    have h1 : e.1 = k := by simpa using hp
+    have : e = (k, v) := List.inj_on_of_nodup_map hk (by simpa using he) hm (by simpa using h1)
+    simp [this]
+
+open CorrRemoverSrc in
+theorem lookupDataFrame_eq (cols : List Nat) (hn : cols.Nodup) (i : Nat) (h : i < cols.length) :
+    lookupDataFrame cols cols[i] = i := by
+  unfold lookupDataFrame
+  apply dictGet_of_mem
+  · simpa [List.map_map, Function.comp_def] using hn
+  · simp only [List.mem_map]
+    exact ⟨(cols[i], i), by simp [List.mem_zipIdx_iff_getElem?, h], rfl⟩
+
+open CorrRemoverSrc in
+theorem lookupArray_eq (m i : Nat) (h : i < m) : lookupArray m i = i := by
+  unfold lookupArray
+  apply dictGet_of_mem
+  · simp [List.map_map, Function.comp_def, List.nodup_range]
+  · simp [h]
+
 end CorrL
